@@ -33,6 +33,11 @@ def jobs(tier):
     J.append(seq(len=6, keys=2, hmap=1, flags=3, count_commit_order=0, nresize=3, workers=8))
     J.append(seq(len=6 if q else 7, keys=4, hmap=1, flags=1, maxb=2, nresize=3, workers=8))
     J.append(seq("1,0,0,0", len=4 if q else 5, keys=2, hmap=1, flags=3, count_commit_order=1, nresize=3, workers=8))
+    # the same enumeration with the table bound to real flavors
+    for b, env in REAL:
+        rp = dict(qs_attempts=1, wait_attempts=1)
+        J.append(Job(b, "seq", "0,0,0,0", dict(rp, len=5 if q else 6, keys=2, hmap=2, mm=-1, flags=-1), env, workers=8))
+        J.append(Job(b, "seq", "1,0,0,0", dict(rp, len=4, keys=4, hmap=1, flags=1, nresize=3), env, workers=8))
     return J
 
 
